@@ -143,11 +143,25 @@ def extra_oracles(op, rep, refrep, fresh, st, plan, now):
             if not _close(lib, ind, _tol(mag)):
                 raise Violation("C16.form", op, {"x": x, "T": t, "library": lib, "independent": ind, "function": d.get("fn"),
                                                  "relative_tolerance": _tol(mag)})
+    # ---- functional form of the functions a non-ideal model returns (after its in-place post-processing)
+    if rep["kind"] == "ok" and d.get("fits_eval"):
+        for fi, how, x, t, lib, ind, mag in d["fits_eval"]:
+            st["form_checks"] += 1
+            if not _close(lib, ind, _tol(mag)):
+                raise Violation("C16.form", op, {"note": "permeance_fits[%d] of the returned model, %s evaluation" % (fi, how), "x": x, "T": t,
+                                                 "library": lib, "expected": ind, "relative_tolerance": _tol(mag)})
     # ---- functional form of shared functions
     if fn == "fn_call" and rep["kind"] == "ok":
         f = plan["world"]["functions"][op["args"]["function"]["$"][1]]
-        vals = _plain_list(rep["tree"])
-        for (x, t), lib in zip(op["grid_args"], vals):
+        if op.get("as_array"):
+            tree = rep["tree"]
+            dd = dict((kv[0]["s"], kv[1]) for kv in tree["d"]) if isinstance(tree, dict) and "d" in tree else {}
+            vals = _plain_list(dd.get("array", []))
+            pts = _plain_list(dd.get("points", []))
+        else:
+            vals = _plain_list(rep["tree"])
+            pts = op["grid_args"]
+        for (x, t), lib in zip(pts, vals):
             ind, mag = _fn_eval(f, x, t)
             st["form_checks"] += 1
             if lib is None or not _close(lib, ind, _tol(mag)):
